@@ -331,6 +331,13 @@ def groups(tier, seed):
     yield {'cases': [{'kind': 'compact-underscore', 'a': a, 'b': b} for a, b in (('line_count*2', 'line_count * 2'), ('line_count+1', 'line_count + 1'),
                                                                                   ('2*line_count', '2 * line_count'), ('line_count%2', 'line_count % 2'),
                                                                                   ('length(name)*line_count', 'length(name) * line_count'))]}
+    # an operator glued to its left operand only, a size literal as operand, a sign in front of a bracket
+    yield {'cases': [{'kind': 'compact-underscore', 'a': a, 'b': b} for a, b in (
+        ('size* 2', 'size * 2'), ('size+ 1', 'size + 1'), ('10- 4- 3', '10 - 4 - 3'), ('2- -3', '2 - -3'), ('size/ 2', 'size / 2'), ('size% 2', 'size % 2'), ('hardlinks* size', 'hardlinks * size'),
+        ('size*1k', 'size * 1k'), ('1k*2', '1k * 2'), ('2*1k', '2 * 1k'), ('1k+1', '1k + 1'), ('1.5k-512', '1.5k - 512'), ('1m/1k', '1m / 1k'), ('size+1kb', 'size + 1kb'),
+        ('2k + -1k', '2k - 1k'), ('-1k + 2k', '2k - 1k'), ('2k - -1k', '2k + 1k'),
+        ('-(size + 1)', '0 - (size + 1)'), ('2 * -(size)', '2 * (0 - size)'), ('-(size)', '0 - size'), ('-{size + 1}', '0 - (size + 1)'), ('+(size + 1)', 'size + 1'), ('10 - -(size)', '10 + size'),
+        ('0 minus size', '0 - size'), ('minus 5 plus size', '-5 + size'), ('size mul minus 3', 'size * -3'), ('plus size', 'size'))]}
     # compact expressions of every length from 6 to 90 characters (the word rules look ahead a fixed number of characters): as their spaced twins
     win = []
     for tail in ('uid', 'size', 'hardlinks', 'mp3_year'):
